@@ -9,636 +9,7 @@
 # Guard constants are passed in by check.py (read from janet.h at run time):
 #   C19_RECURSION_GUARD, C19_MAX_PROTO_DEPTH, C19_MAX_MACRO_EXPAND
 (use prelude)
-
-(def RG (or (scan-number (or (os/getenv "C19_RECURSION_GUARD") "")) 1024))
-
-(defn rep [s n] (string/repeat s n))
-
-# ---------------------------------------------------------------------------
-# data shapes: (mk n) builds a fresh value of nesting depth / ring length n
-
-(defn mk-arr [n] (var x @[]) (repeat n (set x @[x])) x)
-(defn mk-tup [n] (var x []) (repeat n (set x [x])) x)
-(defn mk-btup [n] (var x '[]) (repeat n (set x (tuple/brackets x))) x)
-(defn mk-tab [n] (var x @{}) (repeat n (set x @{:a x})) x)
-(defn mk-tabk [n] (var x @{}) (repeat n (set x @{x 1})) x)
-(defn mk-st [n] (var x {}) (repeat n (set x {:a x})) x)
-(defn mk-stk [n] (var x {}) (repeat n (set x {x 1})) x)
-(defn mk-wide [n] (var x [0]) (repeat n (set x [1 x 2 "s" :k])) x)
-(defn mk-mix [n]
-  (var x 0)
-  (for i 0 n
-    (set x (case (% i 5)
-             0 @[x]
-             1 [x]
-             2 @{:a x}
-             3 {:a x}
-             (tuple/brackets x))))
-  x)
-(defn mk-tproto [n] (var x @{:z 0}) (repeat n (set x (table/setproto @{:a 1} x))) x)
-(defn mk-sproto [n] (var x {:z 0}) (repeat n (set x (struct/with-proto x :a 1))) x)
-# closure chain: each closure captures the previous one (detached environments)
-(defn mk-clo [n] (var f (fn [] 0)) (repeat n (let [g f] (set f (fn [] g)))) f)
-# fiber list: each suspended fiber holds the next one on its stack
-(defn mk-fiblist [n]
-  (var f nil)
-  (repeat n
-    (let [g f]
-      (def nf (fiber/new (fn [] (yield 1) g)))
-      (resume nf)
-      (set f nf)))
-  f)
-
-# rings (self-referential). n = number of containers on the cycle
-(defn mk-cyc-arr [n]
-  (def first @[1]) (var x first)
-  (repeat (- n 1) (set x @[x]))
-  (array/push first x) first)
-(defn mk-cyc-tab [n]
-  (def first @{:k 1}) (var x first)
-  (repeat (- n 1) (set x @{:a x}))
-  (put first :a x) first)
-(defn mk-cyc-tabk [n]
-  (def first @{:k 1}) (var x first)
-  (repeat (- n 1) (set x @{x 1}))
-  (put first x 1) first)
-(defn mk-cyc-mix [n]
-  (def first @[1]) (var x first)
-  (for i 0 (- n 1)
-    (set x (case (% i 4)
-             0 [x]
-             1 @{:a x}
-             2 {:a x}
-             @[x])))
-  (array/push first x) first)
-(defn mk-cyc-tproto [n]
-  (def first @{:k 1}) (var x first)
-  (repeat (- n 1) (set x (table/setproto @{:a 1} x)))
-  (table/setproto first x) first)
-
-(def data-shapes
-  @{"arr" mk-arr "tup" mk-tup "btup" mk-btup "tab" mk-tab "tabk" mk-tabk "st" mk-st "stk" mk-stk
-    "wide" mk-wide "mix" mk-mix "tproto" mk-tproto "sproto" mk-sproto "clo" mk-clo "fiblist" mk-fiblist
-    "cyc-arr" mk-cyc-arr "cyc-tab" mk-cyc-tab "cyc-tabk" mk-cyc-tabk "cyc-mix" mk-cyc-mix
-    "cyc-tproto" mk-cyc-tproto})
-(def data-acyclic ["arr" "tup" "btup" "tab" "tabk" "st" "stk" "wide" "mix" "tproto" "sproto" "clo" "fiblist"])
-(def data-cyclic ["cyc-arr" "cyc-tab" "cyc-tabk" "cyc-mix" "cyc-tproto"])
-
-(defn to-buf [f] (def b @"") (with-dyns [:out b] (f)) (length b))
-
-# consumers implemented in C (explicit stacks, depth counters, cycle detection)
-(def data-c
-  @{"eq" (fn [mk n] (= (mk n) (mk n)))
-    "eq-self" (fn [mk n] (let [x (mk n)] (= x x)))
-    "compare" (fn [mk n] (compare (mk n) (mk n)))
-    "hash" (fn [mk n] (hash (mk n)))
-    "fmt-p" (fn [mk n] (length (string/format "%p" (mk n))))
-    "fmt-P" (fn [mk n] (length (string/format "%P" (mk n))))
-    "fmt-m" (fn [mk n] (length (string/format "%m" (mk n))))
-    "fmt-j" (fn [mk n] (length (string/format "%j" (mk n))))
-    "fmt-v" (fn [mk n] (length (string/format "%v" (mk n))))
-    "fmt-q" (fn [mk n] (length (string/format "%q" (mk n))))
-    "fmt-p-deep" (fn [mk n] (length (string/format "%.100000p" (mk n))))
-    "string" (fn [mk n] (length (string (mk n))))
-    "describe" (fn [mk n] (length (describe (mk n))))
-    "pp" (fn [mk n] (let [x (mk n)] (to-buf |(pp x))))
-    "print" (fn [mk n] (let [x (mk n)] (to-buf |(print x))))
-    "printf-j" (fn [mk n] (let [x (mk n)] (to-buf |(printf "%j" x))))
-    "marshal" (fn [mk n] (length (marshal (mk n))))
-    "marshal-rt" (fn [mk n] (type (unmarshal (marshal (mk n)))))
-    "gc-live" (fn [mk n] (let [x (mk n)] (gccollect) (type x)))
-    "gc-drop" (fn [mk n] (mk n) (gccollect) (mk n) (gccollect))
-    "tabkey" (fn [mk n] (let [t @{}] (put t (mk n) 1) (put t (mk n) 2) (get t (mk n))))
-    "sort" (fn [mk n] (length (sort @[(mk n) (mk n) (mk n)])))
-    "compile-quote" (fn [mk n] (type (compile ['quote (mk n)])))
-    "eval-quote" (fn [mk n] (type (eval ['quote (mk n)])))
-    "compile-lit" (fn [mk n] (let [r (compile (mk n))] (if (table? r) (error (r :error)) r)))
-    "get-missing" (fn [mk n] (get (mk n) :missing))
-    "get-deepest" (fn [mk n] (get (mk n) :z))
-    "keys" (fn [mk n] (let [x (mk n)] (if (or (function? x) (fiber? x)) 0 (length (keys x)))))
-    "call" (fn [mk n] (let [x (mk n)] (if (function? x) (type (x)) 0)))
-    "method" (fn [mk n] (let [x (mk n)] (if (table? x) (:missing x) 0)))})
-
-# consumers implemented in Janet (recursion on the fiber stack)
-(def data-j
-  @{"deep=" (fn [mk n] (deep= (mk n) (mk n)))
-    "deep-not=" (fn [mk n] (deep-not= (mk n) (mk n)))
-    "freeze" (fn [mk n] (type (freeze (mk n))))
-    "thaw" (fn [mk n] (type (thaw (mk n))))
-    "flatten" (fn [mk n] (let [x (mk n)] (if (indexed? x) (length (flatten x)) 0)))
-    "postwalk" (fn [mk n] (type (postwalk identity (mk n))))
-    "prewalk" (fn [mk n] (type (prewalk identity (mk n))))
-    "proto-flatten" (fn [mk n] (let [x (mk n)]
-                                 (cond (table? x) (length (table/proto-flatten x))
-                                   (struct? x) (length (struct/proto-flatten x))
-                                   0)))
-    "env-lookup" (fn [mk n] (let [x (mk n)] (if (table? x) (length (env-lookup x)) 0)))
-    "all-bindings" (fn [mk n] (let [x (mk n)] (if (table? x) (length (all-bindings x)) 0)))
-    "table-clone" (fn [mk n] (let [x (mk n)] (if (table? x) (length (table/clone x)) 0)))})
-
-# ---------------------------------------------------------------------------
-# parser inputs
-
-(def parse-shapes
-  @{"paren" (fn [n] (string (rep "(" n) (rep ")" n)))
-    "brack" (fn [n] (string (rep "[" n) (rep "]" n)))
-    "brace" (fn [n] (string (rep "{:a " n) "1" (rep "}" n)))
-    "aparen" (fn [n] (string (rep "@(" n) (rep ")" n)))
-    "abrack" (fn [n] (string (rep "@[" n) (rep "]" n)))
-    "abrace" (fn [n] (string (rep "@{:a " n) "1" (rep "}" n)))
-    "quote" (fn [n] (string (rep "'" n) "a"))
-    "quasi" (fn [n] (string (rep "~" n) "a"))
-    "unquote" (fn [n] (string (rep "," n) "a"))
-    "splice" (fn [n] (string (rep ";" n) "a"))
-    "shortfn" (fn [n] (string (rep "|" n) "a"))
-    "mixed" (fn [n] (def opens ["(" "[" "{:a " "@(" "@[" "@{:a " "'(" "~[" "|("])
-              (def closes [")" "]" "}" ")" "]" "}" ")" "]" ")"])
-              (def b @"")
-              (for i 0 n (buffer/push b (opens (% i 9))))
-              (buffer/push b "1")
-              (for i 0 n (buffer/push b (closes (% (- n 1 i) 9))))
-              (string b))
-    "unclosed" (fn [n] (rep "(" n))
-    "unclosed-mixed" (fn [n] (def opens ["(" "[" "{" "@(" "'" "~"]) (def b @"") (for i 0 n (buffer/push b (opens (% i 6)))) (string b))
-    "mismatch" (fn [n] (string (rep "(" n) (rep "]" n)))
-    "longstr" (fn [n] (string (rep "`" n) "a" (rep "`" n)))
-    "longbuf" (fn [n] (string "@" (rep "`" n) "a" (rep "`" n)))})
-(def parse-shape-names ["paren" "brack" "brace" "aparen" "abrack" "abrace" "quote" "quasi" "unquote" "splice" "shortfn"
-                        "mixed" "unclosed" "unclosed-mixed" "mismatch" "longstr" "longbuf"])
-
-(def parse-consumers
-  @{"parse" (fn [src] (type (parse src)))
-    "parse-all" (fn [src] (length (parse-all src)))
-    "bytewise" (fn [src] (def p (parser/new)) (each b src (parser/byte p b)) (parser/eof p)
-                 (def st (parser/status p))
-                 (when (= st :error) (error (parser/error p)))
-                 (if (parser/has-more p) (type (parser/produce p)) st))
-    "state" (fn [src] (def p (parser/new)) (parser/consume p src)
-              (+ (length (parser/state p :frames)) (length (parser/state p :delimiters))))
-    "clone" (fn [src] (def p (parser/new)) (def half (div (length src) 2))
-              (parser/consume p (string/slice src 0 half))
-              (def q (parser/clone p)) (parser/consume q (string/slice src half)) (gccollect)
-              (parser/status q))
-    "gc" (fn [src] (def p (parser/new)) (def half (div (length src) 2))
-           (parser/consume p (string/slice src 0 half)) (gccollect) (gccollect)
-           (parser/consume p (string/slice src half)) (parser/status p))
-    "eval-string" (fn [src] (type (eval-string src)))})
-(def parse-consumer-names ["parse" "parse-all" "bytewise" "state" "clone" "gc" "eval-string"])
-
-# ---------------------------------------------------------------------------
-# compiler inputs (forms built as data)
-
-(defn nestf [n leaf f] (var x leaf) (repeat n (set x (f x))) x)
-(defn wide [head n] (def a @[head]) (for i 0 n (array/push a i)) (tuple/slice a))
-
-(def form-shapes
-  @{"call" (fn [n] (nestf n 1 |(tuple '+ 1 $)))
-    "callhead" (fn [n] (nestf n 'identity |(tuple $ 'identity)))
-    "do" (fn [n] (nestf n 1 |(tuple 'do $)))
-    "if-cond" (fn [n] (nestf n 1 |(tuple 'if $ 1 2)))
-    "if-then" (fn [n] (nestf n 1 |(tuple 'if 1 $ 2)))
-    "if-else" (fn [n] (nestf n 1 |(tuple 'if nil 2 $)))
-    "fn" (fn [n] (nestf n 1 |(tuple 'fn [] $)))
-    "fn-closure" (fn [n] (tuple 'fn '[x] (nestf n 'x |(tuple 'fn [] $))))
-    "while-body" (fn [n] (nestf n 1 |(tuple 'while nil $)))
-    "while-cond" (fn [n] (nestf n nil |(tuple 'while $ 1)))
-    "def-value" (fn [n] (nestf n 1 |(tuple 'do (tuple 'def 'a $) 'a)))
-    "var-set" (fn [n] (tuple 'do '(var v 0) (nestf n 1 |(tuple 'set 'v $))))
-    "upscope" (fn [n] (nestf n 1 |(tuple 'upscope $)))
-    "break" (fn [n] (nestf n 1 |(tuple 'while true (tuple 'break $))))
-    "splice" (fn [n] (nestf n (tuple/brackets 1) |(tuple 'tuple (tuple 'splice $))))
-    "quote" (fn [n] (tuple 'quote (mk-tup n)))
-    "quasi" (fn [n] (tuple 'quasiquote (mk-tup n)))
-    "quasi-unquote" (fn [n] (nestf n 1 |(tuple 'quasiquote (tuple 'a (tuple 'unquote $)))))
-    "quasi-arr" (fn [n] (tuple 'quasiquote (mk-arr n)))
-    "quasi-tab" (fn [n] (tuple 'quasiquote (mk-tab n)))
-    "quasi-st" (fn [n] (tuple 'quasiquote (mk-st n)))
-    "btuple-lit" (fn [n] (nestf n 1 |(tuple/brackets $)))
-    "array-lit" (fn [n] (nestf n 1 |(array $)))
-    "table-lit" (fn [n] (nestf n 1 |(table :a $)))
-    "table-lit-key" (fn [n] (nestf n 1 |(table $ 1)))
-    "struct-lit" (fn [n] (nestf n 1 |(struct :a $)))
-    "def-destructure" (fn [n] (tuple 'def (nestf n 'a |(tuple/brackets $)) nil))
-    "def-destructure-st" (fn [n] (tuple 'def (nestf n 'a |(struct :k $)) nil))
-    "var-destructure" (fn [n] (tuple 'var (nestf n 'a |(tuple/brackets $)) nil))
-    "def-destructure-both" (fn [n] (tuple 'def (nestf n 'a |(tuple/brackets $)) (nestf n 1 |(tuple/brackets $))))
-    "fn-param-destructure" (fn [n] (tuple 'fn (tuple/brackets (nestf n 'a |(tuple/brackets $))) 'a))
-    "let" (fn [n] (nestf n 1 |(tuple 'let (tuple/brackets 'a $) 'a)))
-    "when" (fn [n] (nestf n 1 |(tuple 'when true $)))
-    "if-let" (fn [n] (nestf n 1 |(tuple 'if-let (tuple/brackets 'a $) 'a)))
-    "try" (fn [n] (nestf n 1 |(tuple 'try $ (tuple (tuple/brackets 'e) 0))))
-    "short-fn" (fn [n] (nestf n 1 |(tuple 'short-fn $)))
-    "match" (fn [n] (tuple 'match 1 (nestf n 'a |(tuple/brackets $)) 'a))
-    "each-destructure" (fn [n] (tuple 'each (nestf n 'a |(tuple/brackets $)) [] 'a))
-    "and-wide" (fn [n] (wide 'and n))
-    "or-wide" (fn [n] (wide 'or n))
-    "cond-wide" (fn [n] (wide 'cond (* 2 n)))
-    "case-wide" (fn [n] (wide 'case (+ 1 (* 2 n))))
-    "thread-wide" (fn [n] (def a @['-> 1]) (for i 0 n (array/push a '(+ 1))) (tuple/slice a))
-    "plus-wide" (fn [n] (wide '+ n))
-    "string-wide" (fn [n] (wide 'string n))
-    "do-wide" (fn [n] (wide 'do n))})
-(def form-shape-names
-  ["call" "callhead" "do" "if-cond" "if-then" "if-else" "fn" "fn-closure" "while-body" "while-cond" "def-value" "var-set"
-   "upscope" "break" "splice" "quote" "quasi" "quasi-unquote" "quasi-arr" "quasi-tab" "quasi-st" "btuple-lit" "array-lit"
-   "table-lit" "table-lit-key" "struct-lit" "def-destructure" "def-destructure-st" "var-destructure"
-   "def-destructure-both" "fn-param-destructure" "let" "when" "if-let" "try" "short-fn" "match" "each-destructure"
-   "and-wide" "or-wide" "cond-wide" "case-wide" "thread-wide" "plus-wide" "string-wide" "do-wide"])
-
-(defn compile-or-cerr [form env]
-  (def r (compile form env))
-  (if (table? r) (error [:cerr (r :error)]) r))
-
-(def form-consumers
-  @{"compile" (fn [form] (type (compile-or-cerr form (make-env))))
-    "eval" (fn [form] (type ((compile-or-cerr form (make-env)))))
-    "macex" (fn [form] (type (macex form)))
-    "compile-gc-disasm" (fn [form] (def f (compile-or-cerr form (make-env))) (gccollect) (length (disasm f)))
-    "compile-marshal" (fn [form] (def f (compile-or-cerr form (make-env))) (length (marshal f make-image-dict)))})
-(def form-consumer-names ["compile" "eval" "macex" "compile-gc-disasm" "compile-marshal"])
-
-# macro expansion depth: environment with recursive macros
-(def macro-env (make-env))
-(eval '(defmacro selfm [x] ['selfm x]) macro-env)
-(eval '(defmacro pingm [x] ['pongm x]) macro-env)
-(eval '(defmacro pongm [x] ['pingm x]) macro-env)
-(eval '(defmacro countm [k n] (if (< k n) ['countm (+ k 1) n] k)) macro-env)
-(eval '(defmacro nestm [n] (if (> n 0) ['do ['nestm (- n 1)]] 0)) macro-env)
-(eval '(defmacro growm [n] (if (> n 0) ['+ 1 ['growm (- n 1)]] 0)) macro-env)
-(def macro-shapes
-  @{"self" (fn [n] '(selfm 1))
-    "pingpong" (fn [n] '(pingm 1))
-    "count" (fn [n] ['countm 0 n])
-    "nest" (fn [n] ['nestm n])
-    "grow" (fn [n] ['growm n])})
-(def macro-shape-names ["self" "pingpong" "count" "nest" "grow"])
-(def macro-consumers
-  @{"compile" (fn [form] (type (compile-or-cerr form macro-env)))
-    "eval" (fn [form] (type ((compile-or-cerr form macro-env))))
-    "macex" (fn [form] (with-dyns [] (type (macex form (fn [x] (if-let [e (in macro-env x)] (if (e :macro) (e :value))))))))
-    "macex1" (fn [form] (type (macex1 form (fn [x] (if-let [e (in macro-env x)] (if (e :macro) (e :value)))))))})
-(def macro-consumer-names ["compile" "eval" "macex" "macex1"])
-
-# ---------------------------------------------------------------------------
-# PEG
-
-(def peg-nest-heads
-  ['* '+ 'any 'some 'opt 'not 'look 'if-not-x 'capture 'group 'drop 'accumulate 'replace-x 'cmt-x 'between-x
-   'at-least-x 'to 'thru 'sub-x 'split-x 'unref 'only-tags 'nth-x 'number-x 'quote-x 'lenprefix-x 'error 'backmatch-tag])
-(defn peg-nest [head n]
-  (def leaf "a")
-  (case head
-    'if-not-x (nestf n leaf |(tuple 'if-not "b" $))
-    'replace-x (nestf n leaf |(tuple 'replace $ "r"))
-    'cmt-x (nestf n leaf |(tuple 'cmt $ identity))
-    'between-x (nestf n leaf |(tuple 'between 0 2 $))
-    'at-least-x (nestf n leaf |(tuple 'at-least 0 $))
-    'sub-x (nestf n leaf |(tuple 'sub $ "a"))
-    'split-x (nestf n leaf |(tuple 'split "," $))
-    'nth-x (nestf n '(capture "a") |(tuple 'nth 0 $))
-    'number-x (nestf n leaf |(tuple 'capture $ :t))
-    'quote-x (nestf n leaf |(tuple 'quote $))
-    'lenprefix-x (nestf n leaf |(tuple 'lenprefix '(number :d) $))
-    'backmatch-tag (nestf n leaf |(tuple '* $ '(backmatch :t)))
-    (nestf n leaf |(tuple head $))))
-
-(def peg-compile-shapes @{})
-(def peg-compile-shape-names @[])
-(each h peg-nest-heads
-  (def nm (string "nest-" (string/replace "-x" "" (string h))))
-  (array/push peg-compile-shape-names nm)
-  (put peg-compile-shapes nm (fn [n] (peg-nest h n))))
-(put peg-compile-shapes "seq-wide" (fn [n] (def a @['*]) (for i 0 n (array/push a "a")) (tuple/slice a)))
-(put peg-compile-shapes "choice-wide" (fn [n] (def a @['+]) (for i 0 n (array/push a "a")) (tuple/slice a)))
-(put peg-compile-shapes "grammar-nest" (fn [n] (nestf n "a" |(struct :main $))))
-(put peg-compile-shapes "grammar-nest-tab" (fn [n] (nestf n "a" |(table :main $))))
-(put peg-compile-shapes "ref-chain"
-     (fn [n] (def g @{:main :r0 (keyword "r" n) "a"})
-       (for i 0 n (put g (keyword "r" i) (keyword "r" (+ i 1)))) (table/to-struct g)))
-(put peg-compile-shapes "ref-cycle"
-     (fn [n] (def g @{:main :r0 (keyword "r" n) :r0})
-       (for i 0 n (put g (keyword "r" i) (keyword "r" (+ i 1)))) (table/to-struct g)))
-(put peg-compile-shapes "grammar-wide"
-     (fn [n] (def g @{:main '(any :r0)})
-       (for i 0 n (put g (keyword "r" i) ['+ "a" (keyword "r" (% (+ i 1) n))])) (table/to-struct g)))
-(array/concat peg-compile-shape-names ["seq-wide" "choice-wide" "grammar-nest" "grammar-nest-tab" "ref-chain" "ref-cycle" "grammar-wide"])
-
-(def peg-compile-consumers
-  @{"peg-compile" (fn [pat] (type (peg/compile pat)))
-    "peg-compile-match" (fn [pat] (def p (peg/compile pat)) (gccollect) (type (peg/match p "aaaa,a")))
-    "peg-compile-marshal" (fn [pat] (def p (peg/compile pat)) (type (unmarshal (marshal p))))})
-(def peg-compile-consumer-names ["peg-compile" "peg-compile-match" "peg-compile-marshal"])
-
-# recursive grammars on texts of length ~n
-(def peg-match-shapes
-  @{"paren-rec" (fn [n] [~{:main (+ (* "(" :main ")") "")} (string (rep "(" n) (rep ")" n))])
-    "right-rec" (fn [n] [~{:main (+ (* "a" :main) "")} (rep "a" n)])
-    "right-rec-capture" (fn [n] [~{:main (+ (* (capture "a") :main) "")} (rep "a" n)])
-    "left-rec" (fn [n] [~{:main (+ (* :main "a") "a")} (rep "a" n)])
-    "self-loop" (fn [n] [~{:main (* "" :main)} (rep "a" n)])
-    "mutual-rec" (fn [n] [~{:a (+ (* "a" :b) "") :b (+ (* "b" :a) "") :main :a} (rep "ab" (div (+ n 1) 2))])
-    "any-loop" (fn [n] [~(any "a") (rep "a" n)])
-    "any-capture" (fn [n] [~(any (capture "a")) (rep "a" n)])
-    "not-rec" (fn [n] [~{:main (+ (* "a" (not (not :main))) "a")} (rep "a" n)])
-    "look-rec" (fn [n] [~{:main (* "a" (+ (look 0 :main) ""))} (rep "a" n)])
-    "group-rec" (fn [n] [~{:main (+ (group (* (capture "a") :main)) "")} (rep "a" n)])
-    "sub-rec" (fn [n] [~{:main (+ (sub (* "a" (any 1)) (* "a" :main)) "")} (rep "a" n)])
-    "to-rec" (fn [n] [~{:main (+ (* (to "b") "b" :main) "")} (rep "ab" (div (+ n 1) 2))])
-    "cmt-rec" (fn [n] [~{:main (+ (cmt (* (capture "a") :main) ,(fn [& xs] (length xs))) (constant 0))} (rep "a" n)])
-    "replace-rec" (fn [n] [~{:main (+ (replace (* "a" :main) "z") "")} (rep "a" n)])
-    "accumulate-rec" (fn [n] [~{:main (+ (accumulate (* (capture "a") :main)) "")} (rep "a" n)])
-    "split-many" (fn [n] [~(split "," (capture "a")) (string/join (seq [i :range [0 (max 1 n)]] "a") ",")])})
-(def peg-match-shape-names
-  ["paren-rec" "right-rec" "right-rec-capture" "left-rec" "self-loop" "mutual-rec" "any-loop" "any-capture" "not-rec"
-   "look-rec" "group-rec" "sub-rec" "to-rec" "cmt-rec" "replace-rec" "accumulate-rec" "split-many"])
-(def peg-match-consumers
-  @{"peg-match" (fn [[pat text]] (type (peg/match pat text)))
-    "peg-find" (fn [[pat text]] (type (peg/find pat text)))
-    "peg-replace" (fn [[pat text]] (if (> (length text) 4096) 0 (length (peg/replace pat "z" text))))})
-(def peg-match-consumer-names ["peg-match" "peg-find" "peg-replace"])
-
-# ---------------------------------------------------------------------------
-# VM recursion and re-entry of the interpreter from C
-
-(defn rec [k] (if (= k 0) 0 (+ 1 (rec (- k 1)))))
-(varfn odd2 [k] nil)
-(defn even2 [k] (if (= k 0) 0 (+ 1 (odd2 (- k 1)))))
-(varfn odd2 [k] (if (= k 0) 0 (+ 1 (even2 (- k 1)))))
-(defn apply-rec [k] (if (= k 0) 0 (+ 1 (apply apply-rec [(- k 1)]))))
-(defn map-rec [k] (if (= k 0) 0 (+ 1 (first (map map-rec [(- k 1)])))))
-(defn sortby-rec [k] (if (= k 0) 0 (+ 1 (first (sort-by sortby-rec @[(- k 1)])))))
-(defn sorted-rec [k]
-  (if (= k 0) 0
-    (do (var r 0) (sort @[1 2 3] (fn [a b] (when (= r 0) (set r (+ 1 (sorted-rec (- k 1))))) (< a b))) r)))
-(defn reduce-rec [k] (if (= k 0) 0 (+ 1 (reduce (fn [acc x] (reduce-rec x)) 0 [(- k 1)]))))
-(defn resume-rec [k] (if (= k 0) 0 (+ 1 (resume (fiber/new (fn [] (resume-rec (- k 1))))))))
-(defn try-rec [k] (if (= k 0) 0 (+ 1 (try (try-rec (- k 1)) ([e] (error e))))))
-(defn gen-rec [k] (if (= k 0) 0 (+ 1 (first (seq [x :in (coro (yield (gen-rec (- k 1))))] x)))))
-(defn next-rec [k]
-  # (next fiber) resumes the fiber from C (janet_next -> janet_continue)
-  (if (= k 0) 0
-    (do (def f (fiber/new (fn [] (yield (next-rec (- k 1)))) :yi))
-      (next f)
-      (+ 1 (in f 0)))))
-(defn cmt-rec [k]
-  (if (= k 0) 0
-    (+ 1 (first (peg/match ~(cmt (capture "a") ,(fn [x] (cmt-rec (- k 1)))) "a")))))
-(defn pegreplace-rec [k]
-  (if (= k 0) 0
-    (do (var r 0) (peg/replace "a" (fn [x] (set r (+ 1 (pegreplace-rec (- k 1)))) "b") "a") r)))
-(defn strreplace-rec [k]
-  (if (= k 0) 0
-    (do (var r 0) (string/replace "a" (fn [x] (set r (+ 1 (strreplace-rec (- k 1)))) "b") "a") r)))
-(defn printfn-rec [k]
-  (if (= k 0) 0
-    (do (var r 0) (with-dyns [:out (fn [x] (when (= r 0) (set r (+ 1 (printfn-rec (- k 1))))))] (prin "x")) r)))
-(def reenter-env (make-env))
-(put reenter-env 'evalm-depth @{:value @[0 0]})
-(eval '(defmacro evalm []
-         (def d evalm-depth)
-         (if (< (d 0) (d 1))
-           (do (++ (d 0)) (def r (eval '(+ 1 (evalm)))) (-- (d 0)) r)
-           0)) reenter-env)
-(defn macro-eval-rec [k]
-  (def d (get-in reenter-env ['evalm-depth :value]))
-  (put d 0 0) (put d 1 k)
-  (eval '(evalm) reenter-env))
-(defn error-unwind [k] (if (= k 0) (error "bottom") (+ 1 (error-unwind (- k 1)))))
-(defn yield-chain [k]
-  # k nested fibers; the innermost raises a user signal that no fiber but the outermost catches
-  (defn lvl [j] (if (= j 0) (signal 3 :deep) (+ 1 (resume (fiber/new (fn [] (lvl (- j 1))) :e)))))
-  (def top (fiber/new (fn [] (lvl k)) :e3))
-  (def v (resume top))
-  (gccollect)
-  [(fiber/status top) v])
-(defn child-chain-marshal [k]
-  (defn lvl [j] (if (= j 0) (signal 3 :deep) (+ 1 (resume (fiber/new (fn [] (lvl (- j 1))) :e)))))
-  (def top (fiber/new (fn [] (lvl k)) :e3))
-  (resume top)
-  (length (marshal top)))
-(defn small-maxstack [k]
-  (def f (fiber/new (fn [] (rec k)) :e))
-  (fiber/setmaxstack f 4096)
-  (def v (resume f))
-  (if (= (fiber/status f) :error) (error v) v))
-
-(def vm-consumers
-  @{"rec" rec "mutual" even2 "apply-rec" apply-rec "map-rec" map-rec "sortby-rec" sortby-rec "sorted-rec" sorted-rec
-    "reduce-rec" reduce-rec "resume-rec" resume-rec "try-rec" try-rec "gen-rec" gen-rec "next-rec" next-rec
-    "cmt-rec" cmt-rec "pegreplace-rec" pegreplace-rec "strreplace-rec" strreplace-rec "printfn-rec" printfn-rec
-    "macro-eval-rec" macro-eval-rec "error-unwind" error-unwind "yield-chain" yield-chain
-    "child-chain-marshal" child-chain-marshal "small-maxstack" small-maxstack})
-(def vm-consumer-names
-  ["rec" "mutual" "apply-rec" "map-rec" "sortby-rec" "sorted-rec" "reduce-rec" "resume-rec" "try-rec" "gen-rec" "next-rec"
-   "cmt-rec" "pegreplace-rec" "strreplace-rec" "printfn-rec" "macro-eval-rec" "error-unwind" "yield-chain"
-   "child-chain-marshal" "small-maxstack"])
-# consumers whose depth is bounded by the nested-interpreter guard
-(def vm-guarded
-  {"resume-rec" true "try-rec" true "gen-rec" true "next-rec" true "cmt-rec" true "pegreplace-rec" true
-   "strreplace-rec" true "printfn-rec" true "macro-eval-rec" true "yield-chain" true "child-chain-marshal" true})
-
-# ---------------------------------------------------------------------------
-# chains through the collector, assembler, unmarshaller
-
-(defn fiber-env-chain [n]
-  # n suspended fibers; fiber i runs a closure whose environment lives on the stack of fiber i+1
-  (defn step [] (var x 0) (def nxt (fn [] (++ x) (+ 0 (step)))) (yield nxt) x)
-  (var fib (fiber/new step))
-  (repeat n (set fib (fiber/new (resume fib))))
-  (resume fib)
-  fib)
-
-(defn asm-nest [n]
-  (var d {:bytecode '[(ldn 0) (ret 0)] :slotcount 1 :arity 0})
-  (repeat n (set d {:bytecode '[(clo 0 0) (ret 0)] :slotcount 1 :arity 0 :defs [d]}))
-  d)
-
-(def img-def-open "\xCD\x00\x20\x00\x00\x01\x00\x00\x00\x00\x02\x01\x04\x00\x00\x00\x04\x00\x00\x00")
-(def img-def-leaf "\x00\x01\x00\x00\x00\x00\x02\x04\x00\x00\x00\x04\x00\x00\x00")
-(def image-shapes
-  @{"arr" (fn [n] (string (rep "\xD1\x01" n) "\xC9"))
-    "tup" (fn [n] (string (rep "\xD2\x01\x00" n) "\xC9"))
-    "tab-val" (fn [n] (string (rep "\xD3\x01\x01" n) "\xC9"))
-    "tab-key" (fn [n] (string (rep "\xD3\x01" n) "\xC9" (rep "\x01" n)))
-    "st-val" (fn [n] (string (rep "\xD5\x01\x01" n) "\xC9"))
-    "tab-proto" (fn [n] (string (rep "\xD4\x00" n) "\xD3\x00"))
-    "st-proto" (fn [n] (string (rep "\xDF\x00" n) "\xD5\x00"))
-    "mixed" (fn [n] (def parts ["\xD1\x01" "\xD2\x01\x00" "\xD3\x01\x01" "\xD5\x01\x01" "\xD4\x00"]) (def b @"")
-              (for i 0 n (buffer/push b (parts (% i 5)))) (buffer/push b "\xD3\x00")
-              # close the proto tables: after the proto comes nothing (len 0)
-              (string b))
-    "funcdef-nest" (fn [n] (string "\xD7\x00" (rep "\xCD\x00\x20\x00\x00\x00\x00\x00\x00\x00\x00\x01" n)))
-    "funcdef-valid" (fn [n] (string "\xD7\x00" (rep img-def-open n) img-def-leaf))
-    "trunc-arr" (fn [n] (rep "\xD1\x01" n))})
-(def image-shape-names ["arr" "tup" "tab-val" "tab-key" "st-val" "tab-proto" "st-proto" "mixed" "funcdef-nest"
-                        "funcdef-valid" "trunc-arr"])
-(def image-consumers
-  @{"unmarshal" (fn [img] (type (unmarshal img)))
-    "unmarshal-gc" (fn [img] (def x (unmarshal img)) (gccollect) (type x))
-    "unmarshal-use" (fn [img] (def x (unmarshal img))
-                      (if (function? x)
-                        (do (x) (length (disasm x)) (length (string/format "%p" x)))
-                        (length (string/format "%p" x))))
-    "unmarshal-marshal" (fn [img] (length (marshal (unmarshal img))))})
-(def image-consumer-names ["unmarshal" "unmarshal-gc" "unmarshal-use" "unmarshal-marshal"])
-
-(def chain-consumers
-  @{"gc/fiber-env-chain" (fn [n] (def f (fiber-env-chain n)) (gccollect) (fiber/status f))
-    "asm/defs-nest" (fn [n] (type (asm (asm-nest n))))
-    "asm/defs-nest-gc-disasm" (fn [n] (def f (asm (asm-nest n))) (gccollect) (length (disasm f)))
-    "asm/defs-nest-call" (fn [n] (def f (asm (asm-nest n))) (type (f)))})
-(def chain-consumer-names ["gc/fiber-env-chain" "asm/defs-nest" "asm/defs-nest-gc-disasm" "asm/defs-nest-call"])
-
-# ---------------------------------------------------------------------------
-# compositions: a deep C recursion that calls back into the interpreter
-
-(defn compose-compile-in-macro [n]
-  # macro whose expansion compiles a 500-deep form that contains the macro again, n levels
-  (def env (make-env))
-  (def st @[0])
-  (def k (min 500 (- RG 100)))
-  (defn form [] (nestf k '(deepm) |(tuple '+ 1 $)))
-  (put env 'deepm @{:macro true
-                    :value (fn []
-                             (when (< (st 0) n)
-                               (++ (st 0))
-                               (def r (compile (form) env))
-                               (-- (st 0))
-                               (when (table? r) (error (r :error))))
-                             1)})
-  (type (compile-or-cerr (form) env)))
-(defn compose-comptime [n]
-  (var x 1)
-  (def k (min 500 (- RG 100)))
-  (repeat n (repeat k (set x ['+ 1 x])) (set x ['comptime x]))
-  (type ((compile-or-cerr x (make-env)))))
-(defn compose-peg-in-peg [n]
-  (def k (div (- RG 100) 3))
-  (def text (string (rep "(" k) "x" (rep ")" k)))
-  (var level 0) (var g nil)
-  (defn cb [x] (when (< level n) (++ level) (peg/match g text) (-- level)) x)
-  (set g (peg/compile ~{:main (+ (* "(" :main ")") (cmt (capture "x") ,cb))}))
-  (type (peg/match g text)))
-(defn at-reentry-depth [thunk]
-  # run thunk below RG-24 nested interpreter entries (resume from a cmt callback: C -> VM -> C ...)
-  (defn lvl [j] (if (= j 0) (thunk) (first (peg/match ~(cmt (capture "a") ,(fn [x] (lvl (- j 1)))) "a"))))
-  (lvl (max 0 (- RG 24))))
-(def compose-consumers
-  @{"compose/compile-in-macro" compose-compile-in-macro
-    "compose/comptime" compose-comptime
-    "compose/peg-in-peg" compose-peg-in-peg
-    "compose/reentry-marshal" (fn [n] (at-reentry-depth |(length (marshal (mk-arr n)))))
-    "compose/reentry-compile" (fn [n] (at-reentry-depth |(type (compile-or-cerr ((form-shapes "fn") n) (make-env)))))
-    "compose/reentry-fmt-j" (fn [n] (at-reentry-depth |(length (string/format "%j" (mk-tab n)))))
-    "compose/reentry-fmt-p" (fn [n] (at-reentry-depth |(length (string/format "%.100000p" (mk-mix n)))))
-    "compose/reentry-gc" (fn [n] (at-reentry-depth |(let [x (mk-mix n)] (gccollect) (type x))))
-    "compose/reentry-peg" (fn [n] (at-reentry-depth |(type (peg/match ~{:main (+ (* "(" :main ")") "")} (string (rep "(" n) (rep ")" n))))))
-    "compose/reentry-pegc" (fn [n] (at-reentry-depth |(type (peg/compile (peg-nest 'capture n)))))
-    "compose/reentry-unmarshal" (fn [n] (at-reentry-depth |(type (unmarshal ((image-shapes "mixed") n)))))
-    "compose/reentry-parse" (fn [n] (at-reentry-depth |(type (parse ((parse-shapes "mixed") n)))))})
-(def compose-consumer-names
-  ["compose/compile-in-macro" "compose/comptime" "compose/peg-in-peg" "compose/reentry-marshal" "compose/reentry-compile"
-   "compose/reentry-fmt-j" "compose/reentry-fmt-p" "compose/reentry-gc" "compose/reentry-peg" "compose/reentry-pegc"
-   "compose/reentry-unmarshal" "compose/reentry-parse"])
-
-# ---------------------------------------------------------------------------
-# tail calls: constant space
-
-(defn statm []
-  (def f (file/open "/proc/self/statm"))
-  (def s (file/read f :all))
-  (file/close f)
-  (map scan-number (string/split " " (string/trim s))))
-(defn frames [] (length (debug/stack (fiber/current))))
-(var leaf-frames 0)
-(defn selftail [k acc] (if (= k 0) (do (set leaf-frames (frames)) acc) (selftail (- k 1) (+ acc 1))))
-(varfn tb [k acc] nil)
-(defn ta [k acc] (if (= k 0) (do (set leaf-frames (frames)) acc) (tb (- k 1) (+ acc 1))))
-(varfn tb [k acc] (if (= k 0) (do (set leaf-frames (frames)) acc) (ta (- k 1) (+ acc 1))))
-(varfn t3c [k acc] nil)
-(defn t3a [k acc] (if (= k 0) (do (set leaf-frames (frames)) acc) (t3c (- k 1) (+ acc 1))))
-(defn t3b [k acc] (if (= k 0) (do (set leaf-frames (frames)) acc) (t3a (- k 1) (+ acc 1))))
-(varfn t3c [k acc] (if (= k 0) (do (set leaf-frames (frames)) acc) (t3b (- k 1) (+ acc 1))))
-(defn applytail [k acc] (if (= k 0) (do (set leaf-frames (frames)) acc) (apply applytail [(- k 1) (+ acc 1)])))
-(defn condtail [k acc]
-  (cond (= k 0) (do (set leaf-frames (frames)) acc)
-    (even? k) (do (condtail (- k 1) (+ acc 1)))
-    (let [j (- k 1)] (when true (condtail j (+ acc 1))))))
-(defn closuretail [k acc]
-  # a fresh closure is created and tail-called at every step
-  (if (= k 0) (do (set leaf-frames (frames)) acc)
-    ((fn [] (closuretail (- k 1) (+ acc 1))))))
-(def tail-fns @{"self" selftail "mutual2" ta "mutual3" t3a "apply" applytail "cond-do-let" condtail "closure" closuretail})
-(def tail-names ["self" "mutual2" "mutual3" "apply" "cond-do-let" "closure"])
-(defn run-tail [f n]
-  # report: result, frames at the leaf for n and for a 1000-step run, RSS/VSZ growth in pages
-  (f 1000 0)
-  (def small-frames leaf-frames)
-  (gccollect)
-  (def before (statm))
-  (def r (f n 0))
-  (def big-frames leaf-frames)
-  (def after (statm))
-  (string/format "result=%d frames=%d/%d rss=%d vsz=%d" r small-frames big-frames
-                 (- (after 1) (before 1)) (- (after 0) (before 0))))
-
-# ---------------------------------------------------------------------------
-# catalog and dispatch
-
-(def catalog @[])
-(defn cat [family consumer shape kind guard] (array/push catalog [family consumer shape kind guard]))
-
-(def data-c-names (sorted (keys data-c)))
-(def data-j-names (sorted (keys data-j)))
-(def jdn-guarded {"fmt-j" true "printf-j" true "marshal" true "marshal-rt" true "compile-lit" true})
-(each c data-c-names
-  (each s data-acyclic (cat "data" c s "acyclic" "-"))
-  (each s data-cyclic (cat "data" c s "cyclic" "-")))
-(each c data-j-names
-  (each s data-acyclic (cat "dataj" c s "acyclic" "-"))
-  (each s data-cyclic (cat "dataj" c s "cyclic" "-")))
-(each c parse-consumer-names (each s parse-shape-names (cat "parse" c s "acyclic" "-")))
-(each c form-consumer-names (each s form-shape-names (cat "form" c s "acyclic" "-")))
-(each c macro-consumer-names (each s macro-shape-names (cat "macro" c s "acyclic" "-")))
-(each c peg-compile-consumer-names (each s peg-compile-shape-names (cat "pegc" c s "acyclic" "-")))
-(each c peg-match-consumer-names (each s peg-match-shape-names (cat "pegm" c s "acyclic" "-")))
-(each c vm-consumer-names (cat "vm" c "-" "acyclic" "-"))
-(each c image-consumer-names (each s image-shape-names (cat "image" c s "acyclic" "-")))
-(each c chain-consumer-names (cat "chain" c "-" "acyclic" "-"))
-(each c compose-consumer-names (cat "compose" c "-" "acyclic" "-"))
-(each c tail-names (cat "tail" c "-" "tail" "-"))
-
-(defn bounded-stack
-  "Run thunk in a fiber whose stack limit fits in memory, so that unbounded Janet-level
-  recursion on a cyclic input ends in the fiber's own catchable stack overflow."
-  [thunk]
-  (def f (fiber/new thunk :e))
-  (fiber/setmaxstack f 2000000)
-  (def v (resume f))
-  (if (= (fiber/status f) :error) (error v) v))
-
-(defn run-case [family consumer shape n]
-  (case family
-    "data" ((data-c consumer) (data-shapes shape) n)
-    "dataj" (if (string/has-prefix? "cyc-" shape)
-              (bounded-stack |((data-j consumer) (data-shapes shape) n))
-              ((data-j consumer) (data-shapes shape) n))
-    "parse" ((parse-consumers consumer) ((parse-shapes shape) n))
-    "form" ((form-consumers consumer) ((form-shapes shape) n))
-    "macro" ((macro-consumers consumer) ((macro-shapes shape) n))
-    "pegc" ((peg-compile-consumers consumer) ((peg-compile-shapes shape) n))
-    "pegm" ((peg-match-consumers consumer) ((peg-match-shapes shape) n))
-    "vm" ((vm-consumers consumer) n)
-    "image" ((image-consumers consumer) ((image-shapes shape) n))
-    "chain" ((chain-consumers consumer) n)
-    "compose" ((compose-consumers consumer) n)
-    "tail" (run-tail (tail-fns consumer) n)
-    (errorf "unknown family %s" family)))
-
-(defn short [x]
-  (def s (if (bytes? x) (string x) (string/format "%.3q" x)))
-  (def s (if (> (length s) 60) (string/slice s 0 60) s))
-  (string/replace-all "\t" " " (string/replace-all "\n" " " s)))
+(use ./lib)
 
 (defn main-list []
   (each [f c s k g] catalog (print f "\t" c "\t" s "\t" k "\t" g)))
@@ -648,7 +19,9 @@
   (batch-run
     (fn [item]
       (def [family consumer shape n] item)
+      (def t0 (os/clock))
       (def r (protect (run-case family consumer shape n)))
+      (def ms (math/round (* 1000 (- (os/clock) t0))))
       (def cls (cond
                  (r 0) "val"
                  (and (tuple? (r 1)) (= :cerr (get (r 1) 0))) "cerr"
@@ -657,4 +30,4 @@
       (when (>= n 4096) (gccollect))
       # the same process must still compile and run code
       (def alive ((compile '(+ 1 2) (make-env))))
-      (string cls " alive=" alive " " detail))))
+      (string cls " alive=" alive " ms=" ms " " detail))))
